@@ -2,6 +2,7 @@ package gen
 
 import (
 	"pgregory.net/rapid"
+	"strings"
 )
 
 // RapidChooser draws every decision through rapid, so failures shrink.
@@ -52,10 +53,25 @@ type RandomLayout struct {
 	Comments, Conts, Linebreaks bool
 }
 
-var commentTexts = []string{" c", "x", " note: a;b|c", " é 日", "!", " # nested #", " 'q' \"d\" $x `c`", "  two  blanks"}
+var commentTexts = []string{EmptyComment, " c", "x", " note: a;b|c", " é 日", "!", " # nested #", " 'q' \"d\" $x `c`", "  two  blanks"}
+
+var commentTextsBq = func() []string {
+	var out []string
+	for _, c := range commentTexts {
+		if !strings.Contains(c, "`") {
+			out = append(out, c)
+		}
+	}
+	return out
+}()
 
 func (l RandomLayout) Gap(b Boundary) GapText {
 	var g GapText
+	commentTexts := commentTexts
+	if b.Stream != nil && b.Stream.Open == "`" {
+		// inside backquotes a backquote ends the substitution, also in a comment
+		commentTexts = commentTextsBq
+	}
 	switch rapid.IntRange(0, 9).Draw(l.T, "gap") {
 	case 0, 1, 2, 3, 4:
 		g.Blanks = b.Need
